@@ -83,7 +83,11 @@ func (s *heapSubj[T]) GenOp(r *Rng, id int, c *Client) Op {
 	case "clearer":
 		w = []int{8, 2, 2, 1, 3}
 	}
-	if len(s.m) > 40 {
+	limit := 40
+	if s.cfg.Mode == "big" {
+		limit = 200
+	}
+	if len(s.m) > limit {
 		w[2] += 30
 	}
 	pick := func() int {
@@ -235,6 +239,9 @@ func (s *heapSubj[T]) iter() containers.IteratorWithIndex[T] {
 }
 
 func (s *heapSubj[T]) check(o *Oracle) {
+	if o.Sparse {
+		return
+	}
 	if len(o.Active) == 0 {
 		return // C18 write phases: no observer may run on the container (it would warm lazily built state)
 	}
@@ -425,3 +432,11 @@ func (s *heapSubj[T]) EncodeModel() []byte {
 	return mustJSON(s.m) // push order, i.e. in general NOT heap order
 }
 func (s *heapSubj[T]) AdoptModel(from Subject) { s.m = slices.Clone(from.(*heapSubj[T]).m) }
+
+// CheckNow runs the state comparison regardless of the sparse setting.
+func (s *heapSubj[T]) CheckNow(o *Oracle) {
+	sp := o.Sparse
+	o.Sparse = false
+	s.check(o)
+	o.Sparse = sp
+}
